@@ -138,7 +138,47 @@ def _user_ops():
     return Cubic, CubicDeriv
 
 
+def _ref_ops():
+    import odl
+
+    class RefCubicDeriv(odl.Operator):
+        """keeps the point BY REFERENCE and evaluates it lazily, as ComplexModulus(.).derivative does"""
+
+        def __init__(self, space, point):
+            super(RefCubicDeriv, self).__init__(space, space, linear=True)
+            self.point = point
+
+        def _call(self, d, out=None):
+            r = (3 * self.point * self.point - 1) * d
+            if out is None:
+                return r
+            out.assign(r)
+
+    class RefCubic(odl.Operator):
+        """x -> x^3 - x with in-place evaluation; derivative(x) keeps x itself"""
+
+        def __init__(self, space):
+            super(RefCubic, self).__init__(space, space, linear=False)
+
+        def _call(self, x, out=None):
+            r = x * x * x - x
+            if out is None:
+                return r
+            out.assign(r)
+
+        def derivative(self, x):
+            return RefCubicDeriv(self.domain, self.domain.element(x))
+
+    return RefCubic, RefCubicDeriv
+
+
 _CACHE = {}
+
+
+def ref_ops():
+    if 'r' not in _CACHE:
+        _CACHE['r'] = _ref_ops()
+    return _CACHE['r']
 
 
 def user_ops():
@@ -1057,13 +1097,15 @@ def _flat(el):
 HS = (1e-2, 1e-3, 1e-4, 1e-5)
 
 
-def cd_check(op, x, d, rtol=1e-6):
+def cd_check(op, x, d, rtol=1e-6, D=None):
     """(ok, detail).  ok is None when the input must be discarded (derivative raises a documented
-    'not differentiable / not implemented' error, or non-finite values)."""
+    'not differentiable / not implemented' error, or non-finite values).  D: an already obtained
+    op.derivative(x) to be judged instead of a fresh one."""
     import odl
     with np.errstate(all='ignore'):
         try:
-            D = op.derivative(x)
+            if D is None:
+                D = op.derivative(x)
         except NotImplementedError as e:                     # OpNotImplementedError is a NotImplementedError
             return None, 'raises %s' % type(e).__name__
         except ValueError as e:
@@ -1142,6 +1184,21 @@ def build(r):
         return O.OperatorComp(build(r[1]), build(r[2]))
     if k == 'pprod':
         return O.OperatorPointwiseProduct(build(r[1]), build(r[2]))
+    # the constructors that take user-supplied scratch elements
+    if k == 'comp_t':
+        a, b = build(r[1]), build(r[2])
+        return O.OperatorComp(a, b, tmp=b.range.element())
+    if k == 'sum_t':
+        a, b = build(r[1]), build(r[2])
+        return O.OperatorSum(a, b, tmp_ran=a.range.element() if r[3] & 1 else None,
+                             tmp_dom=a.domain.element() if r[3] & 2 else None)
+    if k == 'rscal_t':
+        a = build(r[1])
+        return O.OperatorRightScalarMult(a, r[2], tmp=a.domain.element())
+    if k == 'mat32':          # rn(3) -> rn(2) after the child (domain != range)
+        a = build(r[1])
+        return O.OperatorComp(odl.MatrixOperator(np.array([[1.0, 2.0, -1.0], [0.5, 0.0, 3.0]]), domain=a.range,
+                                                 range=odl.rn(2)), a)
     if k == 'lscal':
         return O.OperatorLeftScalarMult(build(r[1]), r[2])
     if k == 'rscal':
@@ -1216,6 +1273,12 @@ def build(r):
         return getattr(odl.ufunc_ops, r[2])(sp)
     if k == 'cubic':
         return user_ops()[0](sp)
+    if k == 'refcubic':
+        return ref_ops()[0](sp)
+    if k == 'cmod':
+        return odl.ComplexModulus(sp)
+    if k == 'cmod2':
+        return odl.ComplexModulusSquared(sp)
     if k == 'norm':           # vector * norm(x): rn -> rn
         return O.FunctionalLeftVectorMult(D.NormOperator(sp), _el(sp, r[2]))
     if k == 'dist':
@@ -1572,8 +1635,199 @@ def catalogue_probes(rng, tier):
     return out
 
 
+# ---- every ufunc of both tables in both variants, at generic points -------------------------------
+def ufunc_names():
+    from odl.ufunc_ops.ufunc_ops import UFUNCS, _is_integer_only_ufunc
+    return [n for n, nin, nout, _ in UFUNCS if nin == 1 and nout == 1 and not _is_integer_only_ufunc(n)]
+
+
+UF_POSITIVE = ('log', 'log10', 'log2', 'log1p', 'sqrt', 'arccosh')
+UF_VARIANTS = {'op-rn3': "odl.rn(3)", 'op-cn2': "odl.cn(2)", 'func-R': "odl.RealNumbers()",
+               'func-C': "odl.ComplexNumbers()"}
+
+
+def ufunc_probe_one(name, variant, seed):
+    """central differences vs derivative(x)(d) of odl.ufunc_ops.<name>(<domain>) at a generic point:
+    entries in +-[0.3, 1.4] (away from 0 and from the poles of tan), positive for log/sqrt"""
+    import odl
+    import random
+    rng = random.Random(seed)
+    dom = eval(UF_VARIANTS[variant], {'odl': odl})
+    cplx = variant in ('op-cn2', 'func-C')
+    try:
+        op = getattr(odl.ufunc_ops, name)(dom)
+    except (TypeError, ValueError) as e:          # no signature of the ufunc for this dtype
+        return None, 'not available: %s' % str(e)[:80]
+
+    def num(pos):
+        v = _away(rng, 0.4 if pos else -1.4, 1.4)
+        if cplx:
+            v = v + 1j * _away(rng, -1.0, 1.0)
+        return v
+    pos = name in UF_POSITIVE
+    n = 1 if variant.startswith('func') else dom.size
+    xs, ds = [num(pos) for _ in range(n)], [num(False) for _ in range(n)]
+    if variant.startswith('func'):
+        x, d = xs[0], ds[0]
+    else:
+        x, d = dom.element(xs), dom.element(ds)
+    try:
+        return cd_check(op, x, d)
+    except Exception as e:
+        return False, 'raised %s: %s' % (type(e).__name__, str(e)[:200])
+
+
+def ufunc_probes(rng, tier):
+    out = []
+    reps = 2 if tier == 'quick' else 8
+    for name in ufunc_names():
+        for variant in sorted(UF_VARIANTS):
+            for _ in range(reps):
+                seed = rng.randrange(10 ** 9)
+                with np.errstate(all='ignore'):
+                    ok, detail = ufunc_probe_one(name, variant, seed)
+                key = 'ufunc-%s-%s' % (name, variant)
+                if ok is None:
+                    out.append(C.Probe(True, key, 'odl.ufunc_ops.%s(%s): %s' % (name, UF_VARIANTS[variant], detail), None))
+                    continue
+                rp = REPLAY_HEAD + "ok, observed = H.ufunc_probe_one(%r, %r, %d)\nok = bool(ok)\n" % (name, variant, seed)
+                out.append(C.Probe(bool(ok), key, 'central differences vs derivative(x)(d) of odl.ufunc_ops.%s(%s) at a '
+                                   'generic point' % (name, UF_VARIANTS[variant]), rp, detail))
+    return out
+
+
+# ---- derivative(x) is a function of x only: no state shared with the operator ----------------------
+HIST_ACTIONS = ['op(z)', 'op(z,out)', 'op(x,out)', 'op.derivative(z)', 'op.derivative(z)(d2)', 'op.derivative(z)(d2,out)',
+                'op.derivative(x)', 'D(d2)', 'D(d2,out)', 'D(d,out)']
+
+
+def with_tmps(rng, r):
+    """recipe -> recipe using the constructors with user-supplied scratch elements and reference-keeping leaves"""
+    if isinstance(r, list):
+        return [with_tmps(rng, c) for c in r]
+    if not (isinstance(r, tuple) and r and isinstance(r[0], str)):
+        return r
+    k = r[0]
+    if k in ('ident', 'scale', 'mul', 'const', 'zero', 'pow', 'uf', 'cubic', 'mat') and rng.random() < 0.45:
+        return (rng.choice(['refcubic', 'cmod', 'cmod2']), r[1])
+    if k in ('norm', 'dist', 'inner', 'pd') or k in ('ident', 'scale', 'mul', 'const', 'zero', 'pow', 'uf', 'cubic', 'mat'):
+        return r
+    sub = tuple(with_tmps(rng, c) for c in r[1:])
+    if k == 'comp' and rng.random() < 0.8:
+        return ('comp_t',) + sub
+    if k == 'sum' and rng.random() < 0.8:
+        return ('sum_t',) + sub + (rng.choice([1, 2, 3]),)
+    if k == 'rscal' and rng.random() < 0.8:
+        return ('rscal_t',) + sub
+    return (k,) + sub
+
+
+def history_check(rec, skey, xv, dv, zv, d2v, actions):
+    """D = op.derivative(x); then other calls on op and on D; D(d) must be unchanged and still be the
+    central-difference limit at x"""
+    import odl
+    op = build(rec)
+    sp = space_of(skey)
+    x, d, z, d2 = _el(sp, xv), _el(sp, dv), _el(sp, zv), _el(sp, d2v)
+    with np.errstate(all='ignore'):
+        try:
+            D = op.derivative(x)
+        except NotImplementedError as e:
+            return None, 'raises %s' % type(e).__name__
+        except ValueError as e:
+            if 'not differentiable' in str(e):
+                return None, 'documented non-differentiable point'
+            raise
+        v0 = np.array(_flat(D(d)), copy=True)
+        if not np.all(np.isfinite(v0)):
+            return None, 'non-finite'
+        for a in actions:
+            try:
+                if a == 'op(z)':
+                    op(z)
+                elif a == 'op(z,out)':
+                    op(z, out=op.range.element())
+                elif a == 'op(x,out)':
+                    op(x, out=op.range.element())
+                elif a == 'op.derivative(z)':
+                    op.derivative(z)
+                elif a == 'op.derivative(z)(d2)':
+                    op.derivative(z)(d2)
+                elif a == 'op.derivative(z)(d2,out)':
+                    Dz = op.derivative(z)
+                    Dz(d2, out=Dz.range.element())
+                elif a == 'op.derivative(x)':
+                    op.derivative(x)
+                elif a == 'D(d2)':
+                    D(d2)
+                elif a == 'D(d2,out)':
+                    D(d2, out=D.range.element())
+                elif a == 'D(d,out)':
+                    o = D.range.element()
+                    D(d, out=o)
+                    vo = _flat(o)
+                    if np.all(np.isfinite(vo)) and not np.allclose(vo, v0, rtol=1e-9, atol=1e-9 * max(1.0, float(np.max(np.abs(v0))))):
+                        return False, 'D(d, out=...) = %s differs from D(d) = %s' % (vo.tolist(), v0.tolist())
+            except NotImplementedError:
+                pass                                   # z may be a documented singular point
+            except ValueError as e:
+                if 'not differentiable' not in str(e):
+                    raise
+        v1 = _flat(D(d))
+        sc = max(1.0, float(np.max(np.abs(v0))) if v0.size else 1.0)
+        if not np.allclose(v0, v1, rtol=1e-12, atol=1e-12 * sc):
+            return False, 'D = op.derivative(x): D(d) was %s and is %s after %s' % (v0.tolist(), v1.tolist(), actions)
+        ok, detail = cd_check(op, x, d, D=D)
+        return ok, detail + ' (after the calls %s)' % (actions,)
+
+
+def history_probes(rng, tier):
+    out = []
+    n = 150 if tier == 'quick' else 1200
+    maxd = 3 if tier == 'quick' else 4
+    tries = 0
+    while len(out) < n and tries < 30 * n:
+        tries += 1
+        skey = rng.choice(['rn2', 'rn3', 'rn3c', 'rn3w', 'discr4', 'discr23'])
+        sp = space_of(skey)
+        rec = with_tmps(rng, gen_recipe(rng, skey, rng.randint(1, maxd)))
+        if skey == 'rn3' and rng.random() < 0.1:     # a sum between different spaces, with scratch elements
+            rec = ('sum_t', ('mat32', rec), ('mat32', with_tmps(rng, gen_recipe(rng, skey, 1))), rng.choice([1, 2, 3]))
+        if not ({'comp_t', 'sum_t', 'rscal_t', 'refcubic', 'cmod', 'cmod2'} & classes_in(rec)):
+            continue
+        xv, zv = rnd_vals(rng, sp.size, 0.3, 1.8), rnd_vals(rng, sp.size, 0.3, 1.8)
+        dv, d2v = rnd_vals(rng, sp.size), rnd_vals(rng, sp.size)
+        actions = [rng.choice(HIST_ACTIONS) for _ in range(rng.randint(1, 4))]
+        root = rec[0]
+        key = 'history-%s-%s' % (root, skey)
+        try:
+            ok, detail = history_check(rec, skey, xv, dv, zv, d2v, actions)
+        except Exception as e:
+            ok, detail = False, 'raised %s: %s' % (type(e).__name__, str(e)[:200])
+            if type(e).__name__ in ('OpRangeError', 'OpDomainError') and '`tmp_' in str(e):
+                key = 'OperatorSum-derivative-swaps-tmp_dom-tmp_ran'
+        if ok is None:
+            continue
+        rp = (REPLAY_HEAD + "ok, observed = H.history_check(%r, %r, %r, %r, %r, %r, %r)\nok = bool(ok)\n"
+              % (rec, skey, xv, dv, zv, d2v, actions))
+        out.append(C.Probe(bool(ok), key, 'derivative(x) unchanged by later calls %s on a tree (%s) over %s' %
+                           (actions, ','.join(sorted(classes_in(rec))), skey), rp, detail))
+    return out
+
+
 def probes(rng, tier):
-    return tree_probes(rng, tier) + catalogue_probes(rng, tier)
+    return tree_probes(rng, tier) + catalogue_probes(rng, tier) + ufunc_probes(rng, tier) + history_probes(rng, tier)
+
+
+def search(rng, broken):
+    """something is broken (translator / proof / correspondence) and the probes of this tier found no input:
+    run the probe families at thorough volume, the cheap and targeted ones first"""
+    known = C.load_findings(PID)
+    for fam in (ufunc_probes, catalogue_probes, history_probes, tree_probes):
+        for p in fam(rng, 'thorough'):
+            if not p.ok and p.key not in known:
+                return p
+    return None
 
 
 LEVEL_TEXT = ('Proof: Coq theorem for EVERY expression tree (any depth, any number of blocks) over OperatorSum/VectorSum/'
@@ -1599,7 +1853,9 @@ LEVEL_NOTE = ('Validated, not proved: the O(h^2) rate; non-integer powers, Point
               'complex scalars/products, the remaining ~20 functionals, weighted/discretised spaces (theorems are for '
               'rn/cn with constant/array weightings and 1-d uniform_discr), finite-difference operators with pad_const -- all '
               'by central-difference probes on the '
-              'real objects. Exact arithmetic: rounding out of scope. Five open findings and four repaired ones '
+              'real objects; also probed: every ufunc in its operator (rn, cn) and functional (R, C) variants at generic '
+              'points, and that D = derivative(x) is unchanged by later calls on the operator and on D (constructors with '
+              'user scratch elements, reference-keeping leaves). Exact arithmetic: rounding out of scope. Six open findings and four repaired ones '
               '(findings/C06.json). Axioms: classical reals, funext, classic as printed.')
 TECHNIQUE = ('Coq proof by structural induction over a deep embedding of operator arithmetic (nested lists for block '
              'operators), with a curve-based (Hadamard) and an epsilon-delta (Frechet, in norm) differentiability calculus on R^n '
